@@ -250,6 +250,46 @@ func (d *Data) write_denorms_with_check(ctx *datastore.VersionedCtx, store stora
 	}
 	close(ch)
 	wg.Wait()
+
+	// A label or tag that no longer has any element is absent from labelE / tagE, so a list still
+	// stored for it is an incorrect denormalization as well: remove it.
+	var stale []storage.TKey
+	findStale := func(class storage.TKeyClass, current func(tk storage.TKey) bool) {
+		err := store.ProcessRange(ctx, storage.MinTKey(class), storage.MaxTKey(class), &storage.ChunkOp{}, func(c *storage.Chunk) error {
+			if c == nil || c.V == nil || current(c.K) {
+				return nil
+			}
+			stale = append(stale, append(storage.TKey{}, c.K...))
+			return nil
+		})
+		if err != nil {
+			dvid.Errorf("problem scanning stored denormalizations of data %q: %v\n", d.DataName(), err)
+			atomic.AddInt64(&numErrs, 1)
+		}
+	}
+	findStale(keyLabel, func(tk storage.TKey) bool {
+		label, err := DecodeLabelTKey(tk)
+		if err != nil {
+			return true
+		}
+		_, found := labelE[label]
+		return found
+	})
+	findStale(keyTag, func(tk storage.TKey) bool {
+		tag, err := DecodeTagTKey(tk)
+		if err != nil {
+			return true
+		}
+		_, found := tagE[tag]
+		return found
+	})
+	for _, tk := range stale {
+		if err := store.Delete(ctx, tk); err != nil {
+			atomic.AddInt64(&numErrs, 1)
+			continue
+		}
+		atomic.AddInt64(&numChanged, 1)
+	}
 	timedLog.Infof("Finished checked denormalization of %d kvs, %d changed (%d errors)", numProcessed, numChanged, numErrs)
 }
 
